@@ -410,8 +410,14 @@ func c11Removal(p *core.Prog, r *core.Report) {
 					}
 					// returns under !found && !expired are fine
 					fs := factsAt(ret.Block())
-					nothing := fs.hasBool(func(v ssa.Value) bool { e, ok := v.(*ssa.Extract); return ok && e.Index == 0 && e.Tuple == del[0].Value() }, false) &&
-						fs.hasBool(func(v ssa.Value) bool { e, ok := v.(*ssa.Extract); return ok && e.Index == 1 && e.Tuple == del[0].Value() }, false)
+					nothing := fs.hasBool(func(v ssa.Value) bool {
+						e, ok := v.(*ssa.Extract)
+						return ok && e.Index == 0 && e.Tuple == del[0].Value()
+					}, false) &&
+						fs.hasBool(func(v ssa.Value) bool {
+							e, ok := v.(*ssa.Extract)
+							return ok && e.Index == 1 && e.Tuple == del[0].Value()
+						}, false)
 					return !nothing
 				}, isOn, nil)
 				ok = !res.Found
